@@ -173,7 +173,7 @@ func mkTok(t *rapid.T, kind string) ref.Tok {
 	return ref.Tok{Kind: kind, Src: src, Lexeme: lex}
 }
 
-var strays = []string{"#", "@lef", "@lefty", "$", "$a", `"abc`, `""`, "'x'", "/abc", "%", "\\", "é", "\x01", "^", "9a", "/* open", "/*/", "~", "$1", "$_", "$9A", "$_ID", "\xff", "\xc3(", "\xfe\xfe", "\xe4\xb8"}
+var strays = []string{"#", "@lef", "@lefty", "$", "$a", `"abc`, `""`, "'x'", "/abc", "%", "\\", "é", "\x01", "^", "9a", "/* open", "/*/", "~", "$1", "$_", "$9A", "$_ID", "\xff", "\xc3(", "\xfe\xfe", "\xe4\xb8", "\x00", "\x00x", "\u2400"}
 
 var tails = []string{"", ";", " \x00 ", " // c\n\x00",  " ; x = y ;", " ) ) ] }}", " @left \"a\" TK = /x/ start = ;", " # $ %", " /* open", "\n\n grammar g ; start = \"a\" ;\n"}
 
